@@ -109,6 +109,29 @@ VARIANTS = {
             '%s<dtml-else>EMPTY</dtml-in>',
     'expr=': '<dtml-in expr="s" size=sz start=st end=en orphan=orp '
              'overlap=ov>%s<dtml-else>EMPTY</dtml-in>',
+    # every documented batch variable except the ones the statement excepts
+    # (sequence-length, next-batches, statistics)
+    'batch-vars': '<dtml-in s start=st end=en size=sz orphan=orp '
+                  'overlap=ov>%s<dtml-if sequence-start>'
+                  '<dtml-if previous-sequence>p'
+                  '<dtml-var previous-sequence-start-index>:'
+                  '<dtml-var previous-sequence-end-index>:'
+                  '<dtml-var previous-sequence-size>:'
+                  '<dtml-var previous-sequence-start-number>'
+                  '<dtml-in previous-batches mapping>'
+                  '(<dtml-var batch-start-index>-<dtml-var batch-end-index>-'
+                  '<dtml-var batch-size>)</dtml-in></dtml-if></dtml-if>'
+                  '<dtml-if sequence-end><dtml-if next-sequence>n'
+                  '<dtml-var next-sequence-start-index>:'
+                  '<dtml-var next-sequence-end-index>:'
+                  '<dtml-var next-sequence-size></dtml-if>'
+                  's<dtml-var sequence-step-start-index>:'
+                  '<dtml-var sequence-step-end-index>:'
+                  '<dtml-var sequence-step-size></dtml-if>'
+                  '<dtml-var sequence-index>,<dtml-var sequence-number>,'
+                  '<dtml-var sequence-roman>,<dtml-var sequence-letter>,'
+                  '<dtml-if sequence-even>e</dtml-if>'
+                  '<dtml-else>EMPTY</dtml-in>',
     'literal': None,     # parameters written as integer literals
     'plain': '<dtml-in s start=st end=en size=sz orphan=orp overlap=ov>%s'
              '<dtml-else>EMPTY</dtml-in>',
